@@ -19,6 +19,9 @@ typedef struct {
   uint32_t saved_mxcsr;
   uint16_t saved_fpucw;
   uint16_t pad1;
+  uint32_t seed_vec_enable;
+  uint32_t pad2;
+  uint64_t seed_ymm[16][4];
 } VTramp;
 void v_tramp_call (void (*fn) (void *), void *arg, VTramp *st);
 static inline void v_tramp_default (VTramp *st)
@@ -27,6 +30,11 @@ static inline void v_tramp_default (VTramp *st)
   for (i = 0; i < 6; i++) st->seed_gpr[i] = 0x1111111111111111ULL * (uint64_t) (i + 3) ^ 0xdeadbeefcafef00dULL;
   st->seed_mxcsr = 0x1f80;
   st->seed_fpucw = 0x037f;
+  st->seed_vec_enable = 1;
+  for (i = 0; i < 16; i++) {
+    int k;
+    for (k = 0; k < 4; k++) st->seed_ymm[i][k] = 0x7ff4deadbeef0000ULL + (uint64_t) (i * 4 + k) * 0x0101010100000101ULL;
+  }
 }
 /* run an Orc executor function shielded from ABI violations of the callee */
 static inline void v_shielded_call (void *fn, void *arg)
